@@ -46,13 +46,19 @@ Print Assumptions C18_close_takes_effect.
     the application makes no new API call ([nc_step] = all steps but new
     Subscribe / Close calls) every continuation has at most [mu sc s] steps,
     goes through at most one backoff sleep, and cannot get stuck before the
-    Subscribe call in progress (if any) and the Close call have returned. *)
+    Subscribe call in progress (if any) and the Close call have returned.  The
+    last part holds with quiet streams that their context does not wake
+    ([IBlockQ]) in every re-subscribe situation -- [resub_ok]: a transport was
+    installed on the inner client before; the teardown of that transport is a
+    step of the model at which the closer may run -- and for scripts without
+    quiet streams ([noquiet]) always. *)
 Theorem C18_close_subscribe_terminate : forall sc s,
   reach true sc s -> r_closed s = true ->
   forall n s', exec (nc_step true sc) s n s' ->
     n <= mu sc s /\
     nsleep s' <= nsleep s + 1 /\
-    (nc (sstep true sc s' ++ cstep true s') = [] ->
+    (noquiet sc \/ resub_ok s ->
+     nc (sstep true sc s' ++ cstep true s') = [] ->
      (s_pc s' = SFin \/ s_pc s' = SIdle) /\ c_pc s' = CFin).
 Proof. exact close_subscribe_terminate_rc. Qed.
 Print Assumptions C18_close_subscribe_terminate.
